@@ -713,6 +713,11 @@ func genPW(c *Ctx) {
 		if r.Chance(0.7) {
 			nx = r.Range(2, 8)
 		}
+		if r.Chance(0.12) {
+			// long tables: a search that switches algorithm above a size threshold (bisection instead of the linear walk) only shows here
+			nx = []int{9, 10, 12, 16, 17, 24, 32, 33, 64, 100}[r.Intn(10)]
+			c.Stats.Count("long_table")
+		}
 		xs := make([]float64, nx)
 		v := 0.0
 		switch r.Intn(4) {
